@@ -917,6 +917,54 @@ def run(ctx: Ctx):
                                  "reproduce": f"g={tname}({args.replace('rho=', '')}); g.weights[{k}]"})
     base_cache.clear()
     mark('large_n')
+    # exactness far beyond the sizes of the moment pass, in the Chebyshev basis (a monomial x^d of large degree has an
+    # exponentially small component on the top nominal degrees, T_m does not): sizes around powers of two and round decimal
+    # numbers (-1..+3: odd and even, below/at/above any block size an implementation may switch at) plus random ones
+    def cheb_exact(cname, g, n, degs, exact, wfun=None, what="T_m"):
+        x, w = np.asarray(g.points, dtype=float), np.asarray(g.weights, dtype=float)
+        th = np.arccos(np.clip(x, -1.0, 1.0))
+        fac = w * (wfun(x) if wfun is not None else 1.0)
+        for md in sorted(set(d for d in degs if d >= 0)):
+            vals = fac * np.cos(md * th)
+            sm_, S_ = math.fsum(vals), math.fsum(np.abs(vals))
+            e = exact(md)
+            ctx.case(("cheb", cname, n, md))
+            if not abs(sm_ - e) <= 1e-9 * max(S_, 1.0):
+                if cname == "FejerSecond" and truncated.get(cname) and md == 2 * ((n + 1) // 2 - 1):
+                    ctx.count("known-defect:FejerSecond")   # the listed defect: exactly this degree for every n
+                    continue
+                rep.add(n * 1000 + md, f"exact_{cname}", f"{cname}({n}):chebyshev-degree={md}", round(float(sm_), 12),
+                        f"{cname}({n}): sum w_i {what.replace('m', str(md))}(x_i) = {sm_:.15g}, exact integral {e:.15g} (|diff| = {abs(sm_ - e):.3g}, rounding allowance {1e-9 * max(S_, 1.0):.3g})",
+                        {"rule": cname, "n": n, "chebyshev_degree": md, "expected": e, "kind": "chebyshev-moment",
+                         "reproduce": f"g={cname}({n}); t=np.arccos(g.points); (g.weights*np.cos({md}*t)).sum()"})
+
+    int_T = lambda md: 0.0 if md % 2 else 2.0 / (1.0 - md * md)                       # noqa: E731  int T_m
+    int_T_w1 = lambda md: math.pi if md == 0 else 0.0                                  # noqa: E731  int T_m / sqrt(1-x^2)
+    int_T_w2 = lambda md: {0: math.pi / 2, 2: -math.pi / 4}.get(md, 0.0)              # noqa: E731  int T_m sqrt(1-x^2)
+    edges = [64, 100, 128, 200, 256, 500, 512, 1000, 1024, 2000, 2048]
+    exact_sizes = sorted({N + d for N in edges for d in (-1, 0, 1, 2, 3)} | {rng.randint(65, 2100) for _ in range(8)})
+    for n in exact_sizes:
+        top = lambda D: [D - i for i in range(6)] + [0, 1, 2, 3, D // 2, D // 2 + 1] + [rng.randint(0, D) for _ in range(3)]  # noqa: E731
+        for cname, cls in (("ClenshawCurtis", og.ClenshawCurtis), ("FejerFirst", og.FejerFirst), ("FejerSecond", og.FejerSecond)):
+            g = build(cls, n)
+            if g is not None and check_shape(cname, str(n), g, n):
+                cheb_exact(cname, g, n, top(n - 1), int_T)
+        g = build(og.GaussChebyshev, n)
+        if g is not None and check_shape("GaussChebyshev", str(n), g, n):
+            cheb_exact("GaussChebyshev", g, n, top(2 * n - 1), int_T_w1, lambda x: 1.0 / np.sqrt(1.0 - x * x), what="T_m/sqrt(1-x^2)")
+        g = build(og.GaussChebyshevType2, n)
+        if g is not None and check_shape("GaussChebyshevType2", str(n), g, n):
+            cheb_exact("GaussChebyshevType2", g, n, top(2 * n - 1), int_T_w2, lambda x: np.sqrt(1.0 - x * x), what="sqrt(1-x^2) T_m")
+        if n <= 260:
+            g = build(og.GaussLegendre, n)
+            if g is not None and check_shape("GaussLegendre", str(n), g, n):
+                cheb_exact("GaussLegendre", g, n, top(2 * n - 1), int_T)
+        for cname, cls, deg in (("Trapezoidal", og.Trapezoidal, 1), ("MidPoint", og.MidPoint, 1), ("Simpson", og.Simpson, 3)):
+            n1 = n + 1 if (cname == "Simpson" and n % 2 == 0) else n
+            g = build(cls, n1)
+            if g is not None and check_shape(cname, str(n1), g, n1):
+                cheb_exact(cname, g, n1, range(deg + 1), int_T)
+    mark('large_exact')
     # ================================================================== model vs implementation inside Coq
     # two groups (cases that need the literal library arrays carry the big header), interleaved shards, and a second
     # pass over the failures in small shards so that a shard that timed out on a loaded machine is not a disagreement
